@@ -22,7 +22,17 @@ echo "### demo on pinned commit" >>"$log"; run_demo; base=$?
 rm "$dst"
 (cd "$wt" && git apply "$src/patch.diff") >>"$log" 2>&1; applied=$?
 echo "### build+suite with change" >>"$log"
-(cd "$wt" && go build ./... && go test -vet=off -count=1 ./... ) >>"$log" 2>&1; suite=$?
+(cd "$wt" && go build ./... && go test -vet=off -count=1 ./... ) >"$log.suite" 2>&1; suite=$?
+cat "$log.suite" >>"$log"
+# subscribe.TestGNMICoalescedDupCount races its own Subscribe goroutine against its first update and hangs
+# (10 min timeout) when the machine is loaded; if that is the only failure, the package is re-run (twice at most)
+if [ $suite -ne 0 ] && grep -q "TestGNMICoalescedDupCount" "$log.suite" && [ "$(grep -c '^FAIL\s' "$log.suite")" = "1" ] && grep -q '^FAIL\s.*gnmi/subscribe' "$log.suite"; then
+  for try in 1 2; do
+    echo "### re-run of ./subscribe/ (known load-sensitive test), try $try" >>"$log"
+    if (cd "$wt" && go test -vet=off -count=1 ./subscribe/ ) >>"$log" 2>&1; then suite=0; break; fi
+  done
+fi
+rm -f "$log.suite"
 cp "$demo" "$dst"
 echo "### demo with change" >>"$log"; run_demo; with=$?
 git -C /repo worktree remove --force "$wt"
